@@ -366,6 +366,15 @@ func oracle(r *h.Run, sc scenario, ctorOK, nilNil bool, outs []string) {
 			}
 		}
 	}
+	// once a stream has been told it dries up and the grace period has elapsed, only future pages are given up: the items
+	// of the current page and of the pages reachable through next-links must still all be yielded
+	mustPages, _ := goodPrefix(sc.Pages)
+	mustNow := func(driedAndElapsed bool) []int64 {
+		if driedAndElapsed {
+			return mustPages
+		}
+		return mustAll
+	}
 	var yielded []int64
 	stopped := false
 	driedUp := false
@@ -381,6 +390,10 @@ func oracle(r *h.Run, sc scenario, ctorOK, nilNil bool, outs []string) {
 			if stopped && out == "b:true" {
 				r.Fail("hasnext-after-stop:"+sc.Paginator, "HasNext() returned true after Stop/Close", sc)
 			}
+			if !stopped && out == "b:false" && len(yielded) < len(mustNow(stream && driedUp && sc.Elapsed)) {
+				// the canonical loop  for HasNext { GetNext }  would stop here and lose the remaining items
+				r.Fail("hasnext-false-with-items-left:"+sc.Paginator, fmt.Sprintf("HasNext() answered false after %d of %d reachable items", len(yielded), len(mustNow(stream && driedUp && sc.Elapsed))), sc)
+			}
 			hasNextTrueSince = out == "b:true"
 		case "G":
 			if strings.HasPrefix(out, "i:") {
@@ -392,7 +405,7 @@ func oracle(r *h.Run, sc scenario, ctorOK, nilNil bool, outs []string) {
 				yielded = append(yielded, v)
 			} else if hasNextTrueSince && !stopped {
 				r.Fail("getnext-fails-after-hasnext:"+sc.Paginator, "HasNext() said true but the following GetNext() failed with "+out, sc)
-			} else if !stopped && len(yielded) < len(mustAll) && !(stream && driedUp && sc.Elapsed) {
+			} else if !stopped && len(yielded) < len(mustNow(stream && driedUp && sc.Elapsed)) {
 				// "GetNext without HasNext works": items that must still come cannot be answered by an error
 				r.Fail("getnext-error-with-items-left:"+sc.Paginator, fmt.Sprintf("GetNext() failed with %s after %d of %d reachable items", out, len(yielded), len(mustAll)), sc)
 			}
@@ -419,8 +432,8 @@ func oracle(r *h.Run, sc scenario, ctorOK, nilNil bool, outs []string) {
 				must, _ = goodPrefix(sc.Pages)
 			}
 		} else if driedUp && sc.Elapsed {
-			// only what was reachable without waiting for futures is guaranteed: the prefix already checked
-			must = yielded
+			// what is reachable without waiting for futures is still guaranteed: the pages chained by next-links
+			must = mustPages
 		} else {
 			// stream not dry (or grace not elapsed): every future segment's items before a failure must come
 			must = nil
